@@ -121,7 +121,7 @@ def _main(prop, args, seed, t0):
     # merge
     per_sub = {}
     for s in subs:
-        per_sub[s.name] = dict(evaluations=0, nontrivial=set(), labels=collections.Counter(), samples=[], nt_samples=[],
+        per_sub[s.name] = dict(evaluations=0, cases=0, nontrivial=set(), labels=collections.Counter(), samples=[], nt_samples=[],
                                max_resid={}, excluded_known=sorted(excluded[s.name]), excluded_buckets=[], n_excluded=0,
                                budget_skipped=0, inconclusive=0, wall_s=0.0, shards=s.shards[tier],
                                kind='enumeration' if s.cases is not None else 'hypothesis', doc=s.doc)
@@ -130,6 +130,7 @@ def _main(prop, args, seed, t0):
         ps = per_sub[r['sub']]
         st = r['stats']
         ps['evaluations'] += st['evaluations']
+        ps['cases'] += st['cases']
         ps['nontrivial'].update(st['nontrivial'])
         ps['labels'].update(st['labels'])
         if len(ps['samples']) < 2:
@@ -161,9 +162,9 @@ def _main(prop, args, seed, t0):
         for lab, frac in s.floors.items():
             if ps['excluded_buckets'] or ps['excluded_known']:
                 continue  # a failing class was excluded by construction: the distribution is no longer the generator's
-            if ps['evaluations'] >= 50 and ps['labels'].get(lab, 0) < frac * ps['evaluations'] and not ps['budget_skipped']:
+            if ps['cases'] >= 50 and ps['labels'].get(lab, 0) < frac * ps['cases'] and not ps['budget_skipped']:
                 raise core.HarnessError(f'{prop}/{s.name}: label {lab!r} below its floor {frac}: '
-                                        f'{ps["labels"].get(lab, 0)}/{ps["evaluations"]}')
+                                        f'{ps["labels"].get(lab, 0)}/{ps["cases"]}')
 
     evaluations = sum(ps['evaluations'] for ps in per_sub.values())
     nontrivial = sum(len(ps['nontrivial']) for ps in per_sub.values())
